@@ -83,6 +83,12 @@ def worker(scn):
     try:
         root = os.path.join(d, "p")
         commits = S.build_store_project(root, scn)
+        if scn.get("condout_symlink"):
+            # cond-out lives on another volume, deeper in the tree than the link that stands for it
+            os.makedirs(os.path.join(d, "volumes", "scratch", "projects", "out"))
+            if os.path.isdir(os.path.join(root, "cond-out")) and not os.path.islink(os.path.join(root, "cond-out")):
+                shutil.rmtree(os.path.join(root, "cond-out"))
+            os.symlink(os.path.join(d, "volumes", "scratch", "projects", "out"), os.path.join(root, "cond-out"))
         seen = set()
         ctl = os.path.join(root, ".ctl")
         out = []
@@ -163,7 +169,7 @@ def scenario(rng, k):
         # (a copy stays equal to its model only if the dependency is not executed again: cached experiments without --again)
         steps.append({"cmd": "run", "argv": ["run", "//:top"] + ([] if kind == "copy_of_target" and rng.random() < 0.7 else ["--again"]),
                       "clock": 500, "conflict": entry, "_nm": nm})
-    return {"project": proj, "cpkg": cpkg, "chosen": chosen, "steps": steps, "tag": k}
+    return {"project": proj, "cpkg": cpkg, "chosen": chosen, "steps": steps, "tag": k, "condout_symlink": k % 5 == 4}
 
 
 def main(tier):
